@@ -49,6 +49,23 @@ func orc(b []byte, err error) string {
 }
 
 func nL(l string) ([]byte, error) { return precis.UsernameCaseMapped.Append(nil, []byte(l)) }
+
+// orcL: the oracle field of the localpart.  `!` = the profile refuses it, `<hex>` = its
+// enforced form, which the profile maps to itself, `<hex>~<second>` = the enforced form is
+// NOT a fixed point: a second pass gives <second> (hex or `!`).  UsernameCaseMapped of
+// golang.org/x/text is not idempotent (NFC composition after the case mapping looks pairs
+// up with both runes truncated to 16 bits), so the driver needs both answers.
+func orcL(l string) string {
+	out, err := nL(l)
+	if err != nil {
+		return "!"
+	}
+	again, err2 := nL(string(out))
+	if err2 == nil && bytes.Equal(again, out) {
+		return common.Hex(out)
+	}
+	return common.Hex(out) + "~" + orc(again, err2)
+}
 func nR(r string) ([]byte, error) { return precis.OpaqueString.Append(nil, []byte(r)) }
 
 func ip6(d string) bool {
@@ -87,7 +104,7 @@ func toUnicode2(d string) ([]byte, error) {
 }
 
 func oracles(l, d, r string) string {
-	return fmt.Sprintf("%s %s %s", orc(nL(l)), orc(nR(r)), domOracles(d))
+	return fmt.Sprintf("%s %s %s", orcL(l), orc(nR(r)), domOracles(d))
 }
 
 // ---- observations -----------------------------------------------------------------------------
@@ -477,7 +494,13 @@ func (c *ctx) hypotheses(l, d, r string) {
 			note(p.name+"-utf8", p.in)
 		}
 		if again, err := p.f(string(out)); err != nil || !bytes.Equal(again, out) {
-			note(p.name+"-idempotent", p.in)
+			if p.name == "nL" {
+				// not a hypothesis any more (round E): UsernameCaseMapped is not idempotent
+				// and the repaired code tests the fixed point itself (Norm.code)
+				observe("nL-not-idempotent")
+			} else {
+				note(p.name+"-idempotent", p.in)
+			}
 		}
 	}
 	if !utf8.ValidString(d) {
@@ -652,7 +675,7 @@ func (c *ctx) triple(l, d, res string, class string) {
 			if e != nil {
 				return b, e, nil
 			}
-			return with(b, "withl", l, orc(nL(l)), func() (jid.JID, error) { return b.WithLocal(l) })
+			return with(b, "withl", l, orcL(l), func() (jid.JID, error) { return b.WithLocal(l) })
 		}},
 		{"WithDomain", func() (jid.JID, error, []string) {
 			b, e := jid.New(l, "example.net", res)
@@ -700,7 +723,7 @@ func (c *ctx) triple(l, d, res string, class string) {
 			f             func() (jid.JID, error)
 			want          func() (jid.JID, error)
 		}{
-			{"withl", l, orc(nL(l)), func() (jid.JID, error) { return b.WithLocal(l) }, func() (jid.JID, error) { return jid.New(l, b.Domainpart(), b.Resourcepart()) }},
+			{"withl", l, orcL(l), func() (jid.JID, error) { return b.WithLocal(l) }, func() (jid.JID, error) { return jid.New(l, b.Domainpart(), b.Resourcepart()) }},
 			{"withd", d, domOracles(d), func() (jid.JID, error) { return b.WithDomain(d) }, func() (jid.JID, error) { return jid.New(b.Localpart(), d, b.Resourcepart()) }},
 			{"withr", res, orc(nR(res)), func() (jid.JID, error) { return b.WithResource(res) }, func() (jid.JID, error) { return jid.New(b.Localpart(), b.Domainpart(), res) }},
 		} {
@@ -762,6 +785,9 @@ var locals = []string{"", "a", "A", "user", "USER", "ｕｓｅｒ", "ß", "ẞ",
 	"日本", "שלום", "abא", "ال", "a‍b", "a­b", "̀", "à", "1", "a.b", "a_b", "a-b", "a+b", "a b", "a b", " a",
 	"a@b", "a/b", "a:b", "a\"b", "a&b", "a'b", "a<b", "a>b", "＠", "／", "﹫", "﹕", "＂", "＆", "＇", "＜", "＞", "\\20", "d'artagnan\\40musketeers",
 	"\xff", "a\xc0\x80", "\xed\xa0\x80", "\x00", "a\x7f", "K", "ẞ", "ǆ", "Ǆ", "ΐ", "ΰ", "ŉ", "ᾼ", "ϓ", "ẛ̣", "ḍ̇", "q̣̇", "Å", "Å", "㎒", "①", "Ⅸ", "ⅸ",
+	// a supplementary-plane rune whose low 16 bits are a cased letter, followed by a combining
+	// mark that composes with that letter (x/text NFC looks the pair up truncated to 16 bits)
+	"\U00010041\u0301", "x\U000E0045\u0300y", "\U00020055\u0308", "\U000F0041\u030a", "\U00100043\u0327", "\U00010391\u0301", "\U00010061\u0301", "a\U00030049\u0307",
 	strings.Repeat("a", 1023), strings.Repeat("a", 1024), strings.Repeat("é", 511), strings.Repeat("é", 512), strings.Repeat("ẞ", 341), strings.Repeat("ẞ", 342), strings.Repeat("ǰ", 400)}
 
 var domains = []string{"[fe80::1%a/b]", "[fe80::1%a@b]", "[::1%/]", "[fe80::1%25eth0]", "fe80::1%eth0", "\u2135a", "\u2136.com", "a\u2137", "\u2138z.example", "", "a", "b", "example.net", "EXAMPLE.NET", "example.net.", "example.net..", "example.net...", ".", "..", "a.", "a..", ".a", "a..b",
@@ -774,6 +800,7 @@ var domains = []string{"[fe80::1%a/b]", "[fe80::1%a@b]", "[::1%/]", "[fe80::1%25
 	strings.Repeat("a", 63) + ".com", strings.Repeat("a", 64) + ".com", strings.Repeat("a.", 511) + "a", strings.Repeat("a.", 512), strings.Repeat("a.", 512) + "a", strings.Repeat("é.", 341) + "a", strings.Repeat("é.", 342), strings.Repeat("a", 1023), strings.Repeat("a", 1024), strings.Repeat("a", 1023) + ".", strings.Repeat("a", 1024) + "."}
 
 var resources = []string{"", "r", "R", "home", "a/b", "a@b", "/", "@", "//", " ", " r", "r ", "a b", "a b", "a　b", "a b", "ｒ", "ß", "ẞ", "é", "é", "Å", "Å", "ﬁ", "①", "日本", "שלום", "aא", "̀", "a‍b", "a­b",
+	"\U00010041\u0301", "\U000E0045\u0300", "x\U00020055\u0308",
 	"\x00", "a\x7f", "\t", "a\nb", "\r", "\xff", "a\xed\xa0\x80", " ", "　", "<", "&", "\"", "'", "]]>", "😀", "\U000e0001", "�", "\ufeff", " ",
 	strings.Repeat("r", 1023), strings.Repeat("r", 1024), strings.Repeat("é", 511), strings.Repeat("é", 512), strings.Repeat("é", 341), strings.Repeat("é", 342), strings.Repeat("　", 341), strings.Repeat("　", 342), strings.Repeat("　", 1023)}
 
@@ -794,6 +821,15 @@ func (c *ctx) randString(maxRunes int) string {
 			b.WriteByte(byte(rnd.Intn(256)))
 		case 2, 3, 4:
 			b.WriteByte("abcxyzABZ019"[rnd.Intn(12)])
+		case 5:
+			if rnd.Intn(3) == 0 {
+				// a BMP letter that has canonical compositions, shifted to a plane 1-16, then a mark
+				base := []rune("AEIOUCNaeioucn\u0391\u0395\u0399\u03b1\u0415\u0418")[rnd.Intn(20)]
+				b.WriteRune(rune(1+rnd.Intn(16))<<16 | base)
+				b.WriteRune([]rune{0x300, 0x301, 0x302, 0x303, 0x308, 0x30a, 0x327, 0x306}[rnd.Intn(8)])
+				break
+			}
+			fallthrough
 		default:
 			rg := runeRanges[rnd.Intn(len(runeRanges))]
 			b.WriteRune(rg[0] + rune(rnd.Intn(int(rg[1]-rg[0]+1))))
@@ -1028,6 +1064,7 @@ func Facts(repo string) (string, error) {
 	sb.WriteString("namespace XmppModel.Generated.C11\n\n")
 	probeFacts(&sb)
 	aliasFacts(&sb)
+	scalarFacts(&sb)
 	sb.WriteString("\nend XmppModel.Generated.C11\n")
 	return sb.String(), nil
 }
